@@ -26,9 +26,13 @@ def worktree(name):
     return wt
 
 
-def drop(wt):
-    # a check run against a scratch tree regenerates lean/QGen and lean/QAudit from it: put the committed files back
-    sh(["git", "-C", VERIF, "checkout", "--", "lean/QGen", "lean/QAudit", "evidence"])
+def drop(wt, prop=None):
+    # a check run against a scratch tree regenerates the property's lean/QGen, lean/QAudit and evidence files from it:
+    # put the committed files of THAT property back (other properties may be mid-run)
+    if prop:
+        for f in (f"lean/QGen/{prop}.lean", f"lean/QAudit/{prop}.lean", f"evidence/{prop}.json"):
+            if os.path.exists(os.path.join(VERIF, f)):
+                sh(["git", "-C", VERIF, "checkout", "--", f])
     sh(["git", "-C", "/repo", "worktree", "remove", "--force", wt])
     shutil.rmtree(wt, ignore_errors=True)
     sh(["git", "-C", "/repo", "worktree", "prune"])
@@ -81,7 +85,7 @@ def confirm(prop, src, sid):
         print(f"check rc={rc} ({wall}s)"); print("\n".join(lines))
         return 0
     finally:
-        drop(wt)
+        drop(wt, prop)
 
 
 def rerun(sid, tier="quick"):
@@ -98,7 +102,7 @@ def rerun(sid, tier="quick"):
         print(f"{sid}: check rc={rc} ({wall}s)"); print("\n".join(lines))
         return 0 if rc == 1 else 1
     finally:
-        drop(wt)
+        drop(wt, meta["property"])
 
 
 if __name__ == "__main__":
